@@ -35,7 +35,7 @@ def random_graph_model(rng, quotes=False, max_classes=6, max_methods=25, dense=F
     used = set()
     for i in range(ncls):
         pkg = rng.choice(pkgs)
-        name = rng.choice(["A", "B", "C", "Svc", "Repo", "Ctl", "Main", "Util"]) + (str(i) if rng.random() < 0.7 else "")
+        name = rng.choice(["A", "B", "C", "Svc", "Repo", "Ctl", "Main", "Util", "Outer$Inner", "Svc$1"]) + (str(i) if rng.random() < 0.7 else "")
         if quotes and rng.random() < 0.3:
             name = rng.choice(ODD_NAMES)
         if (pkg, name) in used:
@@ -46,7 +46,7 @@ def random_graph_model(rng, quotes=False, max_classes=6, max_methods=25, dense=F
     meths = []  # (ci, name)
     for j in range(total):
         ci = rng.randrange(ncls)
-        nm = rng.choice(["f", "g", "h", "run", "get", "save", "m"]) + (str(j) if rng.random() < 0.8 else "")
+        nm = rng.choice(["f", "g", "h", "run", "get", "save", "m", "access$", "lambda$run$"]) + (str(j) if rng.random() < 0.8 else "")
         if quotes and rng.random() < 0.15:
             nm = rng.choice(ODD_NAMES)
         meths.append((ci, nm))
